@@ -309,6 +309,23 @@ def check(run: Run) -> None:
                 run.finding("C04.k", f"{name}:boundness-read-after-unbind", f"{name}: the guard of record_target_modified ({cn(cond)[:120]}) does not use a boundness snapshot "
                             f"taken before the (un)bind call{' and reads ' + ', '.join(late) + ' afterwards' if late else ''}: clearing a bound target no longer ticks the "
                             "endpoint (value gone, modified false, last_modified_time stale, observers not notified)", loc=fa.loc(recs[0]))
+            # ... and nothing STRONGER than boundness: a target that was bound but had no value yet still changes what the endpoint reads when it is replaced
+            bool_locals = {d.name: d.init for st in top if isinstance(st, C.Decl) for d in st.decls if d.name and d.init is not None and not d.ref and not d.ptr}
+            conj_k, st_k = [], [cond]
+            while st_k:
+                x = st_k.pop()
+                if isinstance(x, C.Binary) and x.op == "&&":
+                    st_k += [x.l, x.r]
+                elif isinstance(x, C.Id) and x.name in bool_locals and isinstance(bool_locals[x.name], (C.Binary, C.Unary, C.Call)):
+                    st_k.append(bool_locals[x.name])          # a named boolean fact: look at what it was computed from
+                elif x is not None:
+                    conj_k.append(cn(x).replace(" ", ""))
+            extra = [x for x in conj_k if not re.fullmatch(r"\(?(evaluation_time_!=MIN_DT|MIN_DT!=evaluation_time_|!\(evaluation_time_==MIN_DT\)|!\(MIN_DT==evaluation_time_\)|[\w.()>-]+(\.|->)bound\(\)|"
+                                                           r"![\w.()>-]+\.same_as\([\w.()>-]+\))\)?", x)]
+            if extra:
+                run.finding("C04.k", f"{name}:guard-stronger-than-boundness", f"{name}: record_target_modified is additionally guarded by {extra}: replacing / clearing a target that was "
+                            "bound but (for example) not yet valid then changes what the endpoint reads without marking it modified (valid flips with modified == false, "
+                            "last_modified_time shows the new producer's old tick)", loc=fa.loc(recs[0]))
         run.sites(n_guard, 3, "guarded record_target_modified after a forwarding (un)bind")
 
     with run.obligation("C04.j", "K1", "a consumer's child view reports the child's own last_modified_time: the link time is blended in only at the root of a link (the "
@@ -410,6 +427,7 @@ def check(run: Run) -> None:
 
 
 VARIANTS = [
+    {"id": "k-seed-C04-8-retarget-only-from-valid", "expect": "C04.k", "edits": [{"file": "src/hgraph/types/time_series/ts_output/base_view.cpp", "find": "        if (evaluation_time_ != MIN_DT && previous.bound() && !previous.same_as(forwarding_target()))", "replace": "        const bool previous_was_valid = previous.bound() && previous.view(evaluation_time_).valid();\n        if (evaluation_time_ != MIN_DT && previous_was_valid && !previous.same_as(forwarding_target()))"}]},
     {"id": "o-fixed-move-forgets-record", "expect": "C04.o", "edits": [{"file": "src/hgraph/types/metadata/ts_data_fixed_structured_ops.cpp", "find": "if (!tracking->record_modified(modified_time))", "replace": "if (tracking->last_modified_time == MIN_DT)", "nth": 1}]},
     {"id": "n-proxy-notifies-unconditionally", "expect": "C04.n", "edits": [{"file": "src/hgraph/types/time_series/ts_data/proxy.cpp", "find": "        if (tracking_.record_modified(modified_time)) { tracking_.parent.notify_child_modified(modified_time); }", "replace": "        static_cast<void>(tracking_.record_modified(modified_time));\n        tracking_.parent.notify_child_modified(modified_time);"}]},
     {"id": "l-seed-C04-5-revived-slot-not-republished", "expect": "C04.l", "edits": [{"file": "src/hgraph/types/metadata/ts_data_slot_ops.cpp", "find": "                if (slot_removed(result.slot))\n                {\n                    removed_.reset(result.slot);\n                    value_published_.set(result.slot);\n                }\n                else if (child_valid(result.slot))\n                {\n                    value_published_.set(result.slot);\n                    added_.set(result.slot);\n                }\n                (void)key_set_tracking_.record_modified(modified_time);\n                return mutation_result(result.slot, result.constructed);\n            }\n\n            [[nodiscard]] SlotTSDataMutationResult insert_key_move", "replace": "                if (slot_removed(result.slot)) { removed_.reset(result.slot); }\n                else if (child_valid(result.slot))\n                {\n                    value_published_.set(result.slot);\n                    added_.set(result.slot);\n                }\n                (void)key_set_tracking_.record_modified(modified_time);\n                return mutation_result(result.slot, result.constructed);\n            }\n\n            [[nodiscard]] SlotTSDataMutationResult insert_key_move"}]},
